@@ -18,11 +18,12 @@ func init() {
 		Explanation: "Structural invariants of package container decided on the generic SSA bodies: (R1) reset completeness: everything a RingBuffer mutator writes (cur, full, element " +
 			"contents) is reset by Clear; (R2) every method whose doc comment promises nil-receiver behaviour dereferences the receiver only under a nil test or through another such method " +
 			"(the list is recomputed from the doc comments); (R3) the sorted-unique invariant of SortedSliceSet: every store to elems is Compact(Sort(x)), Insert at the (i,false) of " +
-			"BinarySearch of the same value, Delete [i,i+1) at (i,true), or a [:0] reslice; (R4) Clone's storage comes from slices.Clone / maps.Clone; (R5) ring cursor invariant: cur is " +
-			"only assigned 0 or x % cap(buf) under len(buf) != 0, buf only by the constructor from make([]T,n), every buf[cur] is under len(buf) != 0; (R6) after a range callback returns " +
+			"BinarySearch of the same value, Delete [i,i+1) at (i,true), or a [:0] reslice; (R4) Clone's storage comes from slices.Clone / maps.Clone; (R5) the ring model, decided by the relational abstract interpreter " +
+			"under the invariant cur < len(buf) == cap(buf) with the fields found by role: Push writes buf[cur], leaves cur+1 or 0 exactly at the wrap and sets full exactly on the wrapping path; " +
+			"splitCur returns (buf[:cur], -) when not full and (buf[cur:], buf[:cur]) when full; buf is assigned only by the constructor from make([]T,n), every buf[cur] is under len(buf) != 0; (R6) after a range callback returns " +
 			"false no further callback call is reachable; (R7) Range/ReverseRange visit splitCur's halves in chronological / reverse order. " +
 			"Not decided: conformance with the abstract set/ring model over all operation histories.",
-		Technique: "SSA shape rules: reset completeness, nil-guard dominance, recognised-update typestate for the sorted slice, provenance of clone storage, reachability after callback stop",
+		Technique: "linear-constraint abstract interpretation against the ring model + SSA rules: reset completeness, nil-guard dominance, recognised-update typestate for the sorted slice, provenance of clone storage, reachability after callback stop, index sequences of the range loops",
 		Note:      "Trusted: go/ssa, the contracts of slices.Sort/Compact/BinarySearch/Insert/Delete/Clone and maps.Clone.",
 		DesignRef: "DESIGN.md section 4, C11",
 		Run:       runC11,
